@@ -63,7 +63,7 @@ func runC06(r *run) {
 	}
 	for i := 0; i < n; i++ {
 		c := &encCase{format: "c", lvl: encLevels[g.intn(len(encLevels))], ts: g.encTime(), attrs: g.genAttrs(g.intn(7), 2, true, false),
-			caller: g.chance(1, 4), tagW: 1 + g.intn(5), minW: []int{16 + g.intn(45), 16 + g.intn(45), 60 + g.intn(140)}[g.intn(3)]}
+			caller: g.chance(1, 4), tagW: 1 + g.intn(5), minW: []int{16 + g.intn(45), 16 + g.intn(45), 60 + g.intn(140), 200 + g.intn(400)}[g.intn(4)]}
 		// messages of the fidelity domain: no markup characters, no control characters other than LF, no escape bytes
 		msg := g.encMessage(true, true)
 		msg = strings.NewReplacer("<", "(", ">", ")", "&", "+").Replace(msg)
